@@ -102,6 +102,7 @@ package plonk
 //@   complete_requires len(proofChallenges.PlonkBetas) == p.commonData.Config.NumChallenges && len(proofChallenges.PlonkGammas) == p.commonData.Config.NumChallenges && len(proofChallenges.PlonkAlphas) == p.commonData.Config.NumChallenges
 //@   complete_requires len(openings.Wires) >= p.commonData.Config.NumRoutedWires && len(openings.PlonkSigmas) >= p.commonData.Config.NumRoutedWires
 //@   complete_requires len(openings.PlonkZs) >= p.commonData.Config.NumChallenges && len(openings.PlonkZsNext) >= p.commonData.Config.NumChallenges && len(openings.PartialProducts) >= p.commonData.Config.NumChallenges * p.commonData.NumPartialProducts
+//@   complete_requires gates_fit(p.evaluateGatesChip, len(vars.localConstants))
 //@   honest !(l0_den(proofChallenges.PlonkZeta, pow2(p.commonData.DegreeBits))[0] == 0 && l0_den(proofChallenges.PlonkZeta, pow2(p.commonData.DegreeBits))[1] == 0)
 //@   ghost vanishingTerms []gl.QuadraticExtensionVariable
 //@   ghost l0Zeta gl.QuadraticExtensionVariable
@@ -142,6 +143,7 @@ package plonk
 //@   complete_requires len(openings.Wires) >= p.commonData.Config.NumRoutedWires && len(openings.PlonkSigmas) >= p.commonData.Config.NumRoutedWires
 //@   complete_requires len(openings.PlonkZs) >= p.commonData.Config.NumChallenges && len(openings.PlonkZsNext) >= p.commonData.Config.NumChallenges && len(openings.PartialProducts) >= p.commonData.Config.NumChallenges * p.commonData.NumPartialProducts
 //@   complete_requires len(openings.QuotientPolys) >= p.commonData.Config.NumChallenges * p.commonData.QuotientDegreeFactor
+//@   complete_requires gates_fit(p.evaluateGatesChip, len(openings.Constants))
 //@   honest !(l0_den(proofChallenges.PlonkZeta, pow2(p.commonData.DegreeBits))[0] == 0 && l0_den(proofChallenges.PlonkZeta, pow2(p.commonData.DegreeBits))[1] == 0)
 //@   ghost zetaPowN gl.QuadraticExtensionVariable
 //@   ghost vanishingTerms []gl.QuadraticExtensionVariable = callghost("plonk.PlonkChip.evalVanishingPoly", 0, "vanishingTerms")
